@@ -185,6 +185,18 @@ def judgeH2 (payload impl : String) : Verdict :=
     | _, _ => .bad "bad-case"
   | _ => .bad "bad-case"
 
+/-- http2.order: the conversation of http2.conv dissected client half first and server half first:
+    the same items (as a set, protocol classification included) and the same left-overs -/
+def judgeH2Order (_payload impl : String) : Verdict :=
+  match Sx.parse impl with
+  | some (.list [.list [.atom "cs", a], .list [.atom "sc", b]]) =>
+    let ok := a.toStr == b.toStr
+    let crashed := (impl.splitOn "panic").length > 1
+    { corr := ok, implSpec := ok && !crashed, modelSpec := true, tags := [], nontrivial := true,
+      cls := "order", model := a.toStr, spec := "what is reported does not depend on which half is dissected first" }
+  | _ => { corr := false, implSpec := false, modelSpec := true, tags := [], nontrivial := true,
+           cls := "no-observation", model := "-", spec := "what is reported does not depend on which half is dissected first" }
+
 /-- the first bytes of the bodies removed: a DATA frame that opens a stream is kept by reference
     into the framer's read buffer (http2_assembler.go: "should not happen"), so the content of
     such a body is whatever the next frame left there; lengths, headers, pairing are compared -/
